@@ -236,6 +236,8 @@ pub struct Runner {
     rp_rx: mpsc::Receiver<BlockId>,
     waiters: Vec<(u64, oneshot::Receiver<BlockId>)>,
     pub max_slot: u64,
+    /// slots above this bound do not widen the observation range (far-future slots of hostile streams, C10)
+    pub slot_cap: u64,
 }
 
 impl Runner {
@@ -244,7 +246,7 @@ impl Runner {
         let (ev_tx, ev_rx) = mpsc::channel(1 << 16);
         let (rp_tx, rp_rx) = mpsc::channel(1 << 16);
         let pool = PoolImpl::new(epoch.clone(), ev_tx, rp_tx);
-        Runner { rt, pool, epoch, ev_rx, rp_rx, waiters: Vec::new(), max_slot: 8 }
+        Runner { rt, pool, epoch, ev_rx, rp_rx, waiters: Vec::new(), max_slot: 8, slot_cap: u64::MAX }
     }
 
     pub fn step(&mut self, keys: &mut Keys, op: &Op) -> StepOut {
@@ -253,7 +255,7 @@ impl Runner {
         let mut wait_res: Option<Option<(u64, u64)>> = None;
         let (op_txt, res): (String, Result<String, ()>) = match op {
             Op::Vote { slot, kind, hash, signer } => {
-                self.max_slot = self.max_slot.max(*slot);
+                if *slot <= self.slot_cap { self.max_slot = self.max_slot.max(*slot); }
                 let vote = keys.vote(*slot, *kind, *hash, *signer);
                 let vv = ValidatedVote::try_new(vote, self.epoch.epoch_info()).expect("harness votes are validly signed");
                 let pool = &mut self.pool;
@@ -283,7 +285,7 @@ impl Runner {
                 }
             }
             Op::Cert { slot, kind, hash, s1, s2 } => {
-                self.max_slot = self.max_slot.max(*slot);
+                if *slot <= self.slot_cap { self.max_slot = self.max_slot.max(*slot); }
                 let cert = keys.cert(&infos, *slot, *kind, *hash, s1, s2).expect("generator builds non-empty certs");
                 let txt = format!("(OpCert {})", r_cert(&cert));
                 match ValidatedCert::try_new(cert, self.epoch.epoch_info()) {
@@ -309,7 +311,7 @@ impl Runner {
                 }
             }
             Op::Block { b, p } => {
-                self.max_slot = self.max_slot.max(b.0);
+                if b.0 <= self.slot_cap { self.max_slot = self.max_slot.max(b.0); }
                 let bid: BlockId = (Slot::new(b.0), hash_of(b.1));
                 let pid: BlockId = (Slot::new(p.0), hash_of(p.1));
                 let pool = &mut self.pool;
